@@ -22,6 +22,21 @@ STRENGTH = "partial"
 ENGINES = ["lean-model", "pyextract", "kopfsim"]
 TIE = "T (HandlerState booleans, with_outcome flags, lifecycles re-extracted and re-proved) + S: step refinement — each real handling pass (closed-loop simulation incl. restarts/kills) replayed through the Lean `cycle`"
 LEVEL_TEXT = ("Lean theorems for all stored-record maps, outcome scripts, lifecycles (one_by_one/all_at_once/asap) and clocks. "
+              "ONE ID, SEVERAL REGISTRATIONS (/repo f7d6401, formerly C03-N3): the whole pass is `cycleB cfg bound P` — the records of selected "
+              "handlers that are declared for the cause (`bound`) but carry another cause's purpose (their namesake's: one function stacked "
+              "under one id for several causes) are left out of the loaded state; pass_is_cycle_over_taken: cycleB = `cycle` over the records "
+              "TAKEN OVER (`taken`, characterised by taken_iff) — invocations, closing decision, delays and every record afterwards, also at the "
+              "namesakes' ids; hence every theorem about `cycle` below is a theorem about the code's pass read over `taken cfg bound P`. Stated "
+              "for the whole pass: no_rerun_own (a finished record of the handler's OWN — no purpose / this cause's / a mix-in handler — is not "
+              "re-run), retry_kwarg_taken, invoked_selected_awake_taken, namesake_starts_from_scratch (every lifecycle: invoked only with retry 0, "
+              "whatever its namesake's record says), namesake_not_inherited (all-at-once: it IS invoked in this pass), "
+              "closed_iff_all_finished_taken, closed_purges_whole, namesake_record_overwritten, final_outcome_recorded_whole, "
+              "finished_never_invoked_whole / once_per_cycle_whole (inside one cycle nothing is left out: invokedSeqB_eq), composed with sub-passes: "
+              "composed_pass_is_cycle2_over_taken, cycle2B_child_no_rerun, cycle2B_closed_purges_children; namesake_not_inherited_regression "
+              "(the N3 history: before nothing invoked & closed; now `h` invoked with retry 0). NEGATIVE, with witnesses replayed on the real "
+              "operator: namesake_subrefs_dropped_witness (OPEN C02-F2 = C03-N7, brought in by f7d6401: the namesake's record is left out with "
+              "its subrefs, its children's records survive the closing purge), namesake_children_inherit_witness (OPEN C03-N8 = C11-F6: the "
+              "sub-pass leaves nothing out, the children of the handler that starts from scratch inherit its namesake's children's records). "
               "Single pass, unguarded: no_rerun, retry_kwarg, invoked_selected_awake, closed_iff_all_finished, closed_purges(+skip, "
               "+subrefs), final_outcome_recorded, due_invoked_all_at_once (the converse for all-at-once only). 'Exactly when every "
               "SELECTED handler has finished' also over objects that carry UNFINISHED records, same purpose, of handlers that are "
@@ -59,7 +74,13 @@ THEOREMS = [("Kopf.Props.C02", "Kopf.C02." + n) for n in [
     "sub_records_purged_on_close", "superseding_cause_reruns_witness",
     "cycle2_refines_cycle", "cycle2_closed_purges_children", "cycle2_child_no_rerun", "sub_not_rerun_after_supersede_regression", "cycle2_keeps_untouched",
     "sub_selection_is_registration", "cycle2_closed_children_finished", "cycle2_due_child_invoked_all_at_once",
-    "delete_parent_runs_its_children_regression"]]
+    "delete_parent_runs_its_children_regression",
+    "pass_is_cycle_over_taken", "taken_iff", "no_rerun_own", "retry_kwarg_taken", "invoked_selected_awake_taken",
+    "namesake_starts_from_scratch", "namesake_not_inherited", "closed_iff_all_finished_taken", "closed_purges_whole",
+    "namesake_record_overwritten", "final_outcome_recorded_whole", "invokedSeqB_eq", "finished_never_invoked_whole",
+    "once_per_cycle_whole", "namesake_not_inherited_regression", "namesake_subrefs_dropped_witness",
+    "composed_pass_is_cycle2_over_taken", "cycle2B_child_no_rerun", "cycle2B_closed_purges_children",
+    "namesake_children_inherit_witness"]]
 TIE_THEOREMS = [("Kopf.Tie.C02", "Kopf.C02.Tie." + n) for n in [
     "finished_eq", "sleeping_eq", "awakened_eq", "success_eq", "failure_eq", "one_by_one_eq", "all_at_once_eq"]]
 RULE = ("seeded scenarios: 1-4 change handlers (create/update/delete/resume, optional sub-handlers), outcome scripts over "
@@ -73,13 +94,23 @@ RULE = ("seeded scenarios: 1-4 change handlers (create/update/delete/resume, opt
         "sometimes an unfiltered sibling, a delete/resume handler), the victim retrying/sleeping when the next change reverts its "
         "field and changes another one (another handler of the SAME cause kind is selected), stop/kill + restart before, around "
         "(downtime holding the change) or after it, later changes of the other field, of the victim's field (selected again), of "
-        "both (histogram unselected_unfinished_same_purpose); one case = one handling pass; distinct & non-trivial = "
+        "both (histogram unselected_unfinished_same_purpose); a stacked-registration family (gen_stacked): ONE function registered under ONE id "
+        "for update+delete / create+delete / create+update / all three, with the same filters and limits, the record under the shared id "
+        "finished, failed for good, retrying or sleeping (or a sibling keeps the cycle open) when the superseding cause — the deletion, an "
+        "edit, a label flip — arrives, early or after the first cycle closed, stop / kill + restart in between, a foreign finalizer that keeps "
+        "the object after the release, a resuming sibling (mix-in), sub-handlers under the first registration only or under both (histogram "
+        "namesake_record_not_inherited); one case = one handling pass; distinct & non-trivial = "
         "distinct abstracted (reason, stored-record shape, outcomes, closing) tuples with at least one handler selected")
 TRUSTED = ["harness/sim (virtual-time loop, fake API server, scripted handlers, attribute-level observation of kopf)",
            "abstraction of a pass: records decoded with kopf's own progress storage (C16's subject)",
            "the closing decision of a pass is observed through `memory.fully_handled_once` (reset around the call, restored after)"]
 ASSUMPTIONS = ["randomized/shuffled lifecycles are not modelled (they draw from `random`); generators use the three deterministic ones",
-               "handler ids identify handlers (one function stacked under one id for several causes shares one record: not generated, not claimed)",
+               "one id registered for several causes (one function, stacked decorators) = several handlers with one record: which selected "
+               "handlers are declared for the cause (`bound`: on.create/update/delete, as opposed to resuming/field) is an input of the model, read "
+               "off the decorators' gates as the implementation reports them; generated with the same filters/limits for all registrations of "
+               "the id; an id registered with AND without a reason (on.resume + on.create on one function) is not generated. The oracle reads a "
+               "record of another cause's purpose under the id of a handler declared for the cause as NOT that handler's (the property's "
+               "'a handler whose success is recorded': the registration for this cause has recorded nothing)",
                "the multi-pass theorems chain every pass from what the previous one wrote (the honest reading of 'absent crashes, lost "
                "responses, late echoes') and assume no pass of another reason (a superseding cause, incl. a no-op that purges) in between",
                "`cycle2` composes one level of sub-handlers on one clock; nested sub-handlers and passes in which time advances between "
@@ -442,6 +473,119 @@ def gen_deselect(rng: Any, i: int) -> dict:
     return sc
 
 
+def gen_stacked(rng: Any, i: int) -> dict:
+    """ONE function registered under ONE id for several causes (stacked decorators: `@kopf.on.update` + `@kopf.on.delete`,
+    `@kopf.on.create` + `@kopf.on.delete`, `@kopf.on.create` + `@kopf.on.update`, sometimes all three): several handlers,
+    one progress record. A sibling of the first cause keeps that cycle open (temporary failures with long delays, or the
+    stacked handler itself is retrying / sleeping) when the SUPERSEDING cause arrives — the deletion, mostly — so that the
+    record under the shared id carries the other cause's purpose: finished, failed for good, unfinished, sleeping. The
+    handler declared for the new cause must start from scratch (retry 0, its own limits) and must be invoked before the
+    cycle closes / the object is released (/repo f7d6401, formerly C03-N3). Variants: the deletion arrives after the first
+    cycle closed (control: nothing under the id), stop / kill + restart between the two causes (the namesake's record was
+    written by another process), a label flip that de-selects both registrations, a foreign finalizer that keeps the object
+    after the release (later FREE purges), limits (retries / timeout / backoff) on the stacked function, a resuming sibling
+    (mix-in: re-purposed as before), sub-handlers under the first registration only (their records are referenced by the
+    namesake's record alone) or under both (same children ids)."""
+    first = rng.choice(["update", "update", "update", "create", "create"])
+    kinds = [first, "delete"]
+    r = rng.random()
+    if r < 0.15:
+        kinds = ["create", "update"]
+    elif r < 0.3:
+        kinds = ["create", "update", "delete"]
+        first = rng.choice(["create", "update"])
+    opts: dict[str, Any] = {}
+    if rng.random() < 0.25:
+        opts["retries"] = rng.choice([1, 2, 3])
+    if rng.random() < 0.15:
+        opts["timeout"] = rng.choice([2.0, 4.0, 8.0])
+    if rng.random() < 0.4:
+        opts["backoff"] = rng.choice([0.5, 1.0, 2.0])
+    if rng.random() < 0.2:
+        opts["labels"] = {"l": "1"}
+    how = rng.choice(["ok", "ok", "ok", "perm", "retrying", "sleeping"])      # the namesake's record when the next cause comes
+    long_d = rng.choice([4.0, 8.0, 16.0])
+    subs_on = rng.choice(["none", "none", "none", "none", "first", "both"])
+    handlers: list[dict] = []
+    for k in kinds:
+        if k == first or (k != "delete" and "delete" in kinds):
+            script: list = {"ok": [], "perm": ["perm"], "retrying": [["temp", 0.5], ["temp", 0.5]], "sleeping": [["temp", long_d]]}[how]
+        else:
+            script = []
+        h: dict[str, Any] = {"kind": k, "id": "h", "opts": dict(opts), "script": list(script), "default": "ok"}
+        if subs_on != "none" and how == "ok" and (k == first or subs_on == "both"):
+            h["sub"] = [{"id": f"s{j}", "default": "ok",
+                         "script": [rng.choice(["ok", ["temp", long_d], "perm"])] if rng.random() < 0.4 else []}
+                        for j in range(rng.choice([1, 2]))]
+            h["sub_mode"] = rng.choice(SUB_MODES)
+        handlers.append(h)
+    # the sibling that keeps the first cycle open
+    if how in ("ok", "perm") or rng.random() < 0.5:
+        handlers.append({"kind": first, "id": "g", "opts": {"backoff": 1.0} if rng.random() < 0.3 else {}, "default": "ok",
+                         "script": [["temp", long_d] for _ in range(rng.choice([1, 1, 2]))]})
+    if rng.random() < 0.3:
+        handlers.append({"kind": "delete", "id": "d", "opts": {"optional": rng.random() < 0.3}, "default": "ok",
+                         "script": [rng.choice(["ok", ["temp", 1.0]])]})
+    if rng.random() < 0.2:
+        handlers.append({"kind": "resume", "id": "r", "opts": {"deleted": rng.random() < 0.5}, "default": "ok",
+                         "script": [rng.choice(["ok", ["temp", long_d]])]})
+    rng.shuffle(handlers)
+    body0: dict[str, Any] = {"spec": {"x": 0}, "metadata": {"labels": {"l": "1"}}}
+    if rng.random() < 0.25:
+        body0["metadata"]["finalizers"] = ["example.com/hold"]
+    timeline: list[list] = []
+    sc: dict[str, Any] = {"seed": i, "lifecycle": rng.choice(["asap", "one_by_one", "all_at_once"]), "handlers": handlers,
+                          "settings": {"execution.default_backoff": rng.choice([1.0, 2.0])}, "family": "stacked"}
+    if first == "update" and rng.random() < 0.5:
+        body0["metadata"]["annotations"] = {OWN_PREFIX + "last-handled-configuration":
+                                            json.dumps({"spec": {"x": 0}, "metadata": {"labels": {"l": "1"}}}, separators=(",", ":")) + "\n"}
+        sc["objects"] = [{"name": "a", "body": body0}]
+        t = 1.0
+    else:
+        timeline.append([1.0, "create", "a", body0])
+        t = 1.0 if first == "create" else 3.0
+    if first == "update":
+        timeline.append([t, "edit", "a", {"spec": {"x": 1}}])
+    t1 = t
+    # the superseding cause, while the first cycle is open (or, control, after it closed)
+    late = rng.random() < 0.15
+    t += rng.choice([0.25, 0.5, 1.0, 2.0, 3.0]) if not late else 3 * long_d + 8.0
+    what = rng.choice(["delete", "delete", "delete", "edit", "flip"]) if "delete" in kinds else rng.choice(["edit", "edit", "flip"])
+    if what == "delete":
+        timeline.append([t, "delete", "a"])
+    elif what == "edit":
+        timeline.append([t, "edit", "a", {"spec": {"x": 2}}])
+    else:
+        timeline.append([t, "edit", "a", {"metadata": {"labels": {"l": "0"}}}])
+    t2 = t
+    for _ in range(rng.choice([0, 0, 1, 2])):
+        t += rng.choice([0.5, 2.0, 5.0])
+        nxt = rng.choice(["edit", "flip", "delete"])
+        if nxt == "delete" and "delete" in kinds:
+            timeline.append([t, "delete", "a"])
+            break
+        if nxt == "flip":
+            timeline.append([t, "edit", "a", {"metadata": {"labels": {"l": rng.choice(["0", "1"])}}}])
+        else:
+            timeline.append([t, "edit", "a", {"spec": {"x": 3 + len(timeline)}}])
+    rr = rng.random()
+    if rr < 0.2:        # the superseding cause arrives while the operator is down
+        ts = t1 + 0.125 if t2 - t1 > 0.25 else t1 + 0.0625
+        timeline.append([ts, rng.choice(["stop", "kill"])])
+        timeline.append([t2 + rng.choice([0.5, 2.0]), "start"])
+    elif rr < 0.3:
+        ts = t2 + rng.choice([0.015625, 0.5])
+        timeline.append([ts, rng.choice(["stop", "kill"])])
+        timeline.append([ts + rng.choice([0.5, 2.0]), "start"])
+    if body0["metadata"].get("finalizers") and rng.random() < 0.4:
+        timeline.append([t + 20.0, "fins", "a", []])
+    sc["timeline"] = timeline
+    sc["end"] = t + 6 * long_d + 30.0
+    if rng.random() < 0.15:
+        sc["status_subresource"] = True
+    return sc
+
+
 SUB_MODES = ["execute", "decorator", "register", "decorator_execute"]
 ESSENCE0 = {"spec": {"x": 0}, "metadata": {"labels": {"l": "1"}}}
 
@@ -525,6 +669,23 @@ def gen_subs(rng: Any, i: int) -> dict:
     return sc
 
 
+def _bound(p: dict) -> list[str]:
+    """The selected handlers that are declared for the cause of this pass (`handler.reason is not None`: on.create /
+    on.update / on.delete — as opposed to the mix-in handlers, resuming and field, which have no reason of their own),
+    read off the decorators' gates as the implementation reports them. (A handler with a reason is selected only for
+    that reason, so `reason == the cause's` is the same as `is not None` for a selected one.)"""
+    return sorted({d["id"] for d in p.get("decls") or [] if d["id"] in p["selected"] and d["gate"].get("reason") == p["reason"]})
+
+
+def _own(p: dict, hid: str, rec: dict | None) -> dict | None:
+    """The record as far as it is the handler's OWN progress: the record of another cause (purpose neither empty nor
+    this cause's) under the id of a handler that is declared for this cause is its NAMESAKE's — one function & id
+    registered for several causes are several handlers — and says nothing about this handler."""
+    if rec is not None and hid in _bound(p) and rec.get("purpose") not in (None, p["reason"]):
+        return None
+    return rec
+
+
 def _hid(inv: dict) -> str:
     """kopf's own id of an invoked handler (the scenario id of a field handler `f0` is `f0/spec.x` in kopf)."""
     return inv.get("hid") or inv["id"]
@@ -542,13 +703,32 @@ def _own_record(body: dict, hid: str) -> dict | None:
         return None
 
 
+SIG_F2 = {"site": "process_changing_cause", "shape": "namesake's record left out with its subrefs: the records of its sub-handlers survive the closing purge"}
+
+
+def _namesake_child(sc: dict, key: str) -> bool:
+    """The annotation is the record of a sub-handler whose parent id stands for several registrations (one function
+    stacked under one id for several causes) — read off the scenario's declarations."""
+    hid = key[len(OWN_PREFIX):] if key.startswith(OWN_PREFIX) else key
+    if "." not in hid and "/" not in hid:
+        return False
+    parent = hid.replace("/", ".").rsplit(".", 1)[0]
+    return len({h["kind"] for h in sc.get("handlers", []) if h["id"].replace("/", ".") == parent and h["kind"] in KINDS}) > 1
+
+
 def oracle(ctx: Ctx, sc: dict, tr: dict) -> None:
     """From the property statement, over implementation-level observations only."""
     dead_times = [m["t"] for m in tr["marks"] if m["what"] == "killed"]
     for cyc in tr["cycles"]:
         body = cyc["body"]
+        pc = cyc.get("pcc") or {}
         for inv in cyc["invoked"]:
             rec = _own_record(body, _hid(inv))
+            if rec is not None and pc.get("reason") in KINDS and _hid(inv) in (pc.get("selected") or []):
+                if _own(pc, _hid(inv), rec) is None:
+                    ctx.count("namesake_record_not_inherited", f"{rec.get('purpose')} -> {pc['reason']}: "
+                              f"{'finished' if rec.get('success') or rec.get('failure') else 'unfinished'}")
+                rec = _own(pc, _hid(inv), rec)
             if rec is not None and (rec.get("success") or rec.get("failure")):
                 ctx.oracle_fail(f"handler {_hid(inv)} invoked although its success/failure is recorded on the object it was given",
                                 {"scenario": sc, "cycle": cyc["i"], "record": rec},
@@ -578,7 +758,7 @@ def oracle(ctx: Ctx, sc: dict, tr: dict) -> None:
             continue
         fin_after = {}
         for hid in p["selected"]:
-            before = p["P"].get(hid)
+            before = _own(p, hid, p["P"].get(hid))
             o = p["outcomes"].get(hid)
             fin_after[hid] = bool((before and (before["success"] or before["failure"])) or (o and o["final"]))
         all_fin = all(fin_after.values())
@@ -589,6 +769,7 @@ def oracle(ctx: Ctx, sc: dict, tr: dict) -> None:
             if all_fin and prog:
                 ctx.oracle_fail(f"the handling cycle is closed but progress records remain on the object: {prog}",
                                 {"scenario": sc, "cycle": cyc["i"]},
+                                SIG_F2 if all(_namesake_child(sc, k) for k in prog) else
                                 {"site": "process_changing_cause", "shape": "progress annotations left after closing"})
             if not all_fin:
                 for k in prog:
@@ -604,6 +785,7 @@ def oracle(ctx: Ctx, sc: dict, tr: dict) -> None:
                     if subrefs is not None and hid not in [str(x).replace("/", ".") for x in subrefs]:
                         ctx.oracle_fail(f"sub-handler record {k} is not referenced by its parent's record (it would survive the closing purge)",
                                         {"scenario": sc, "cycle": cyc["i"], "parent_subrefs": subrefs},
+                                        SIG_F2 if _namesake_child(sc, k) else
                                         {"site": "execute_handler_once", "shape": "sub-handler record not covered by parent subrefs"})
         if all_fin and left:
             ctx.oracle_fail(f"all selected handlers finished but progress records remain: {left}",
@@ -634,6 +816,13 @@ def oracle(ctx: Ctx, sc: dict, tr: dict) -> None:
                 ctx.oracle_fail("last-handled state written although a selected handler has not finished",
                                 {"scenario": sc, "cycle": cyc["i"], "finished": fin_after},
                                 {"site": "process_changing_cause", "shape": "closed early"})
+            if p["reason"] == "delete" and "allow_deletion" in ((cyc.get("apply") or {}).get("fns") or []) and not cyc.get("error"):
+                # "… and not before": the deletion cycle is closed by releasing the object
+                never = sorted(h for h, fin in fin_after.items() if not fin)
+                ctx.oracle_fail(f"the object is released although the selected deletion handler(s) {never} have not finished "
+                                f"(a record of another cause under a handler's id is its namesake's, not its own)",
+                                {"scenario": sc, "cycle": cyc["i"], "finished": fin_after, "records": {h: p["P"].get(h) for h in never}},
+                                {"site": "process_resource_causes", "shape": "released before every selected deletion handler finished"})
             for hid, fin in fin_after.items():
                 if fin and p["P_after"].get(hid) is None:
                     ctx.oracle_fail(f"record of finished handler {hid} dropped while the cycle is still open",
@@ -804,6 +993,7 @@ def abstract(cyc: dict, lifecycle: str) -> tuple[list, dict] | None:
     outcomes = {k: {f: v[f] for f in ("final", "delay", "error", "subrefs")} for k, v in (p["outcomes"] or {}).items()}
     universe = sorted(set(p["owned"]) | set(p["P"].keys()) | set(p["P_after"].keys()))
     req = ["C02.cycle", {"owned": p["owned"], "selected": p["selected"], "limits": p["limits"], "reason": p["reason"],
+                         "bound": _bound(p),
                          "lifecycle": lifecycle, "P": p["P"], "outcomes": outcomes, "now": p["now"],
                          "now1": p["now1"] if p["now1"] is not None else p["now"], "universe": universe}]
     top = set(p["owned"])
@@ -897,6 +1087,7 @@ def abstract_whole(cyc: dict, lifecycle: str) -> tuple[list, dict] | str | None:
         Pall.update(sp["P"])
     universe = sorted(set(p["owned"]) | set(Pall) | set(kids))
     req = ["C02.cycle2", {"owned": p["owned"], "selected": p["selected"], "limits": p["limits"], "reason": p["reason"],
+                          "bound": _bound(p),
                           "lifecycle": lifecycle, "children": children, "P": Pall, "outcomes": outcomes, "now": p["now"],
                           "universe": universe}]
     top = set(p["owned"])
@@ -914,6 +1105,7 @@ def run(ctx: Ctx) -> None:
     scenarios += [gen_restart_supersede(ctx.rng, 65_000_000 + ctx.seed * 100000 + i) for i in range(max(10, n // 6))]
     scenarios += [gen_subs(ctx.rng, 70_000_000 + ctx.seed * 100000 + i) for i in range(max(60, n // 2))]
     scenarios += [gen_deselect(ctx.rng, 80_000_000 + ctx.seed * 100000 + i) for i in range(max(40, n // 4))]
+    scenarios += [gen_stacked(ctx.rng, 90_000_000 + ctx.seed * 100000 + i) for i in range(max(60, n // 3))]
     for name, sc in _corpus():
         scenarios.insert(0, sc)
     results = pool.run_many(scenarios, wall=40.0)
@@ -1019,6 +1211,7 @@ def search(ctx: Ctx, broken: list) -> None:
     n = ctx.budget(1200, 8000)
     scenarios = [gen_scenario(ctx.rng, 7_000_000 + ctx.seed * 100000 + i) for i in range(n)]
     scenarios += [gen_deselect(ctx.rng, 87_000_000 + ctx.seed * 100000 + i) for i in range(n // 4)]
+    scenarios += [gen_stacked(ctx.rng, 97_000_000 + ctx.seed * 100000 + i) for i in range(n // 3)]
     # bias: replay the scenarios of the diverging passes first
     for b in broken[:10]:
         sc = (b.replay or {}).get("input", {}).get("scenario") if isinstance(b.replay, dict) else None
